@@ -5,7 +5,7 @@ CONSTANTS
   Kind = "nameaddr"
   Atoms <- AtomsQ2
   Prefix <- PfxQ
-  MaxLen = 12
+  MaxLen = 13
   Cfgs <- CfgsNA8
   Junk = 34
   EmitOn = TRUE
